@@ -278,6 +278,10 @@ def validate(cm, msg):
             return ("error", "bind-without-appid", False)
         if "side" not in msg:
             return ("error", "bind-without-side", False)
+        if not isinstance(msg["appid"], str) or not isinstance(msg["side"], str):
+            # outside the input domain (identifiers are strings): the server may refuse, drop
+            # the connection or accept - but an accepted value is an identity of its own
+            return ("ok", "oodbind", (msg["appid"], msg["side"]))
         return ("ok", "bind", (msg["appid"], msg["side"]))
     if cm.bound is None:
         return ("error", "not-bound", False)
